@@ -131,4 +131,25 @@ theorem commitment_key_family_disjoint {src src' dst dst' : Str} {n n' : Nat}
   · exact Host.seqPath_ne_pairPath (by decide) hs hd (by decide) hs' hd'
   · exact Host.seqPath_ne_pairPath (by decide) hs hd (by decide) hs' hd'
 
+/-- **Another spelling is another packet.** A receive is accepted only on a proof for the key
+    spelled exactly as the packet's own `(source, destination, sequence)`; a packet that differs in
+    any of the three — e.g. the same chain name percent-encoded — presented with the proof of the
+    original key is refused and changes nothing. (The code agrees since repair b1763c2: before,
+    `MerklePath.GetKey` URL-unescaped the key path and `%74estchain0` resolved to `testchain0`'s
+    key — found by the `packet` stream, F-C02-pct.) -/
+theorem recv_needs_proof_of_own_key (s : State) (p q : Packet) (h : Nat) (t : String) (prover : Chain)
+    (hne : q.key ≠ p.key) :
+    (deliver H Hc s (.recvPacket q (.honest prover h (.commit p.key)) h t)).2 ≠ .ok ∧
+    (deliver H Hc s (.recvPacket q (.honest prover h (.commit p.key)) h t)).1 = s := by
+  have hno : (deliver H Hc s (.recvPacket q (.honest prover h (.commit p.key)) h t)).2 ≠ .ok := by
+    intro hok
+    obtain ⟨_, _, _, _, _, _, _, _, hπ, _⟩ := deliver_recv_ok H Hc s q _ h t hok
+    injection hπ with _ _ hk
+    injection hk with hk
+    exact hne hk.symm
+  refine ⟨hno, ?_⟩
+  cases hr : (deliver H Hc s (.recvPacket q (.honest prover h (.commit p.key)) h t)).2 with
+  | ok => exact absurd hr hno
+  | err e => exact deliver_err_unchanged H Hc s _ e hr
+
 end Tibc.C01
